@@ -47,7 +47,7 @@ Prop return Set then Type using where with andb orb negb true false Some None fs
 """.split())
 
 
-BUILTINS = ("any", "all", "len", "str", "map", "list", "filter")
+BUILTINS = ("any", "all", "len", "str", "int", "map", "list", "filter")
 
 
 class Refuse(Exception):
@@ -1040,6 +1040,9 @@ class Tr:
     def e_Subscript(self, e, env, want):
         env2 = env.allow_bare()
         term, t = self.expr(e.value, env2)
+        if isinstance(e.slice, ast.Slice) and t[0] == "list" and e.slice.step is None and e.slice.lower is None \
+                and e.slice.upper is not None and const_int(e.slice.upper) == -1:
+            return f"(List.removelast {term})", t          # l[:-1]; [] for the empty list in Python too
         if isinstance(e.slice, ast.Slice):
             if e.slice.step is not None or t != STR:
                 self.no(e, "only str[a:b] slices are supported")
@@ -1065,6 +1068,11 @@ class Tr:
                 return f"(List.last {term} {d})", t[1]
             if i >= 0:
                 return (f"(List.hd {d} {term})" if i == 0 else f"(List.nth {i} {term} {d})"), t[1]
+        if t == STR and i >= -1:
+            # s[i] as the one-character slice s[i:i+1] (s[-1:] for i = -1): equal whenever s[i] does not raise
+            self.res.partial.append(f"{self.path}:{e.lineno}: {ast.unparse(e)} (IndexError is not modelled; \"\" if out of range)")
+            hi = "None" if i == -1 else f"(Some {i + 1}%Z)"
+            return f"(py_str_slice {term} (Some ({i})%Z) {hi})", STR
         self.no(e, f"index {i} on {coq_type(t)}")
 
     def intz(self, e, env) -> str:
@@ -1230,6 +1238,12 @@ class Tr:
                 return f"{len(t[1])}%Z", Z
         if name == "str" and len(args) == 1:
             return self.to_str(args[0], env), STR
+        if name == "int" and len(args) == 1:                      # int(b) of a bool: 1 / 0; int(i) of an int: i
+            term, t = self.expr(args[0], env)
+            if t == BOOL:
+                return f"(if {term} then 1%Z else 0%Z)", Z
+            if t in (Z, N):
+                return term, t
         if name == "map" and len(args) == 2 and isinstance(args[0], ast.Name):
             it, t = self.iterable(args[1], env)
             if args[0].id == "str" and t[1] in (Z, N):
